@@ -899,4 +899,99 @@ theorem goParse_shape {s : List Char} {p : Parsed} (h : goParse s = some p) (hsc
               · obtain ⟨_, e2, _⟩ := finishPath_some hp0
                 exact absurd e2 hh
 
+/-! ### the host comparison -/
+
+theorem toNat_ofNat_small (n : Nat) (h : n < 0xD800) : (Char.ofNat n).toNat = n := by
+  have hv : n.isValidChar := Or.inl h
+  unfold Char.ofNat
+  rw [dif_pos hv]
+  simp [Char.ofNatAux, Char.toNat]
+
+theorem lowerC_toNat (c : Char) :
+    (lowerC c).toNat = if 65 ≤ c.toNat ∧ c.toNat ≤ 90 then c.toNat + 32 else c.toNat := by
+  unfold lowerC
+  simp only [cle]
+  have e1 : 'A'.toNat = 65 := rfl
+  have e2 : 'Z'.toNat = 90 := rfl
+  rw [e1, e2]
+  split
+  · rename_i h; rw [toNat_ofNat_small _ (by omega)]
+  · rfl
+
+/-- lower-casing never produces or removes a dot -/
+theorem lowerC_eq_dot (c : Char) : lowerC c = '.' ↔ c = '.' := by
+  rw [ceq, ceq, lowerC_toNat]
+  have : '.'.toNat = 46 := rfl
+  rw [this]
+  split <;> omega
+
+theorem lower_dotted (d : List Char) : lower (dotted d) = dotted (lower d) := by
+  cases d with
+  | nil => simp [dotted, lower]; decide
+  | cons c cs =>
+    unfold dotted
+    by_cases hc : c = '.'
+    · subst hc
+      have : lowerC '.' = '.' := by decide
+      simp [lower, this]
+    · have hl : lowerC c ≠ '.' := fun e => hc ((lowerC_eq_dot c).mp e)
+      have : lowerC '.' = '.' := by decide
+      simp [lower, hc, hl, this]
+
+theorem hostMatches_iff (h d : List Char) :
+    hostMatches h d = true ↔ d ≠ [] ∧ h ≠ [] ∧ (h = d ∨ dotted d <:+ h) := by
+  unfold hostMatches
+  split
+  · rename_i hc
+    constructor
+    · intro hf; cases hf
+    · intro ⟨h1, h2, _⟩; rcases hc with hc | hc <;> contradiction
+  · rename_i hc
+    have hd : d ≠ [] := fun e => hc (Or.inl e)
+    have hh : h ≠ [] := fun e => hc (Or.inr e)
+    split
+    · rename_i he; simp [hd, hh, he]
+    · rename_i he
+      rw [List.isSuffixOf_iff_suffix]
+      simp [hd, hh, he]
+
+/-- matching survives the browser's lower-casing of the host -/
+theorem hostMatches_lower {h d : List Char} (hm : hostMatches h d = true) : hostMatches (lower h) (lower d) = true := by
+  rw [hostMatches_iff] at hm ⊢
+  obtain ⟨h1, h2, h3⟩ := hm
+  refine ⟨by simpa [lower] using h1, by simpa [lower] using h2, ?_⟩
+  rcases h3 with rfl | ⟨t, rfl⟩
+  · left; rfl
+  · right
+    refine ⟨lower t, ?_⟩
+    rw [← lower_dotted]
+    simp [lower]
+
+/-- `hasDotDot` is `strings.Contains(·, "..")` -/
+theorem hasDotDot_iff (l : List Char) : hasDotDot l = true ↔ ['.', '.'] <:+: l := by
+  induction l with
+  | nil => simp [hasDotDot]
+  | cons c rest ih =>
+    simp only [hasDotDot, Bool.or_eq_true, Bool.and_eq_true, beq_iff_eq, ih]
+    constructor
+    · rintro (⟨rfl, h2⟩ | h)
+      · cases rest with
+        | nil => simp at h2
+        | cons d r =>
+          simp at h2; subst h2
+          exact ⟨[], r, rfl⟩
+      · obtain ⟨s, t, e⟩ := h
+        exact ⟨c :: s, t, by simp [← e]⟩
+    · rintro ⟨s, t, e⟩
+      cases s with
+      | nil =>
+        simp at e
+        left
+        obtain ⟨rfl, rfl⟩ := e
+        simp
+      | cons x s' =>
+        simp at e
+        right
+        exact ⟨s', t, by simp [e.2]⟩
+
 end KM.Redirect
